@@ -30,6 +30,9 @@ pub struct Tapes {
     pub a: Vec<u8>,
     pub b: Vec<u8>,
     pub c: Vec<u8>,
+    /// first phase of a run: short tapes and a domain without the size-amplifying modes (chains, wide,
+    /// amplify, long sequences), so that simple failures are found before any expensive case runs
+    pub small: bool,
 }
 
 #[derive(Clone, Debug)]
@@ -250,7 +253,7 @@ pub fn gen_tapes(prop: &dyn Property, seed: u64, n: usize) -> Vec<Tapes> {
     (0..n)
         .map(|_| {
             let (a, b, c) = strat.new_tree(&mut runner).expect("new_tree").current();
-            Tapes { a, b, c }
+            Tapes { a, b, c, small: false }
         })
         .collect()
 }
@@ -262,7 +265,7 @@ pub struct Outcome {
 }
 
 fn tapes_json(t: &Tapes) -> Value {
-    json!({"a": hex(&t.a), "b": hex(&t.b), "c": hex(&t.c)})
+    json!({"a": hex(&t.a), "b": hex(&t.b), "c": hex(&t.c), "small": t.small})
 }
 
 pub fn hex(b: &[u8]) -> String {
@@ -303,7 +306,7 @@ pub fn run_property(prop: &dyn Property, tier: Tier, seed: u64) -> Outcome {
                     }
                     let mut st = Stats::default();
                     let cfg = Config {
-                        cases: per as u32,
+                        cases: 1,
                         failure_persistence: None,
                         rng_algorithm: RngAlgorithm::ChaCha,
                         rng_seed: RngSeed::Fixed(0),
@@ -312,68 +315,83 @@ pub fn run_property(prop: &dyn Property, tier: Tier, seed: u64) -> Outcome {
                         verbose: 0,
                         ..Config::default()
                     };
-                    let rng = proptest::test_runner::TestRng::from_seed(RngAlgorithm::ChaCha, &mix(seed, prop.id(), shard));
-                    let mut runner = TestRunner::new_with_rng(cfg, rng);
-                    let strat = (vec(any::<u8>(), 0..=na), vec(any::<u8>(), 0..=nb), vec(any::<u8>(), 0..=nc));
+                    // phase 0: a fifth of the cases with short tapes and the small domain; phase 1: the rest, full size
                     let last_fail: std::cell::RefCell<Option<Failure>> = std::cell::RefCell::new(None);
                     let stref = std::cell::RefCell::new(&mut st);
-                    let res = runner.run(&strat, |(a, b, c)| {
-                        let mut st = stref.borrow_mut();
-                        if stop.load(Ordering::Relaxed) && !st.frozen {
-                            return Ok(());
+                    for phase in 0..2u64 {
+                        if stop.load(Ordering::Relaxed) {
+                            break;
                         }
-                        let tapes = Tapes { a, b, c };
-                        if !st.frozen {
-                            st.evaluations += 1;
+                        let small = phase == 0;
+                        let cases = if small { (per / 5).max(1) } else { per - (per / 5).max(1).min(per) };
+                        if cases == 0 {
+                            continue;
                         }
-                        crate::crashguard::begin_case(&tapes.a, &tapes.b, &tapes.c);
-                        let outcome = run_guarded(prop, &tapes, &mut st);
-                        crate::crashguard::end_case();
-                        if crate::crashguard::enabled() {
-                            crate::crashguard::EVALS.fetch_add(1, Ordering::Relaxed);
-                            crate::crashguard::NONTRIVIAL.store(st.nontrivial.len() as u64, Ordering::Relaxed);
-                        }
-                        match outcome {
-                            Ok(()) => Ok(()),
-                            Err(f) => {
-                                if let Some(sig) = &f.signature {
-                                    if known.iter().any(|k| &k.signature == sig) {
-                                        if !st.frozen {
-                                            let e = st.known.entry(sig.clone()).or_insert((0, json!({"tapes": tapes_json(&tapes), "message": f.msg})));
-                                            e.0 += 1;
-                                        }
-                                        return Ok(());
-                                    }
-                                }
-                                st.frozen = true;
-                                let m = f.msg.clone();
-                                *last_fail.borrow_mut() = Some(f);
-                                Err(TestCaseError::fail(m))
+                        let cfg = Config { cases: cases as u32, ..cfg.clone() };
+                        let rng = proptest::test_runner::TestRng::from_seed(RngAlgorithm::ChaCha, &mix(seed, prop.id(), shard * 2 + phase));
+                        let mut runner = TestRunner::new_with_rng(cfg, rng);
+                        let (la, lb, lc) = if small { ((na / 6).max(8).min(na), (nb / 6).max(8).min(nb), nc) } else { (na, nb, nc) };
+                        let strat = (vec(any::<u8>(), 0..=la), vec(any::<u8>(), 0..=lb), vec(any::<u8>(), 0..=lc));
+                        let res = runner.run(&strat, |(a, b, c)| {
+                            let mut st = stref.borrow_mut();
+                            if stop.load(Ordering::Relaxed) && !st.frozen {
+                                return Ok(());
                             }
-                        }
-                    });
-                    drop(stref);
-                    if let Err(TestError::Fail(_, (a, b, c))) = res {
-                        stop.store(true, Ordering::Relaxed);
-                        let tapes = Tapes { a, b, c };
-                        // re-run the shrunk case to obtain its own failure record
-                        let mut scratch = Stats::default();
-                        scratch.frozen = true;
-                        let f = match run_guarded(prop, &tapes, &mut scratch) {
-                            Err(f) => f,
-                            Ok(()) => last_fail.borrow_mut().take().unwrap_or_else(|| Failure::new("failure did not reproduce after shrinking")),
-                        };
-                        let payload = json!({"kind": "tapes", "tapes": tapes_json(&tapes), "decoded": prop.describe(&tapes)});
-                        let mut ff = first_failure.lock().unwrap();
-                        if ff.is_none() {
-                            *ff = Some((f, payload));
-                        }
-                    } else if let Err(TestError::Abort(r)) = res {
-                        let mut ff = first_failure.lock().unwrap();
-                        if ff.is_none() {
-                            *ff = Some((Failure::new(format!("proptest aborted: {}", r)).with_signature("infrastructure"), Value::Null));
+                            let tapes = Tapes { a, b, c, small };
+                            if !st.frozen {
+                                st.evaluations += 1;
+                            }
+                            crate::crashguard::begin_case(&tapes.a, &tapes.b, &tapes.c, small);
+                            let outcome = run_guarded(prop, &tapes, &mut st);
+                            crate::crashguard::end_case();
+                            if crate::crashguard::enabled() {
+                                crate::crashguard::EVALS.fetch_add(1, Ordering::Relaxed);
+                                crate::crashguard::NONTRIVIAL.store(st.nontrivial.len() as u64, Ordering::Relaxed);
+                            }
+                            match outcome {
+                                Ok(()) => Ok(()),
+                                Err(f) => {
+                                    if let Some(sig) = &f.signature {
+                                        if known.iter().any(|k| &k.signature == sig) {
+                                            if !st.frozen {
+                                                let e = st.known.entry(sig.clone()).or_insert((0, json!({"tapes": tapes_json(&tapes), "message": f.msg})));
+                                                e.0 += 1;
+                                            }
+                                            return Ok(());
+                                        }
+                                    }
+                                    st.frozen = true;
+                                    let m = f.msg.clone();
+                                    *last_fail.borrow_mut() = Some(f);
+                                    Err(TestCaseError::fail(m))
+                                }
+                            }
+                        });
+                        if let Err(TestError::Fail(_, (a, b, c))) = res {
+                            stop.store(true, Ordering::Relaxed);
+                            let tapes = Tapes { a, b, c, small };
+                            // re-run the shrunk case to obtain its own failure record
+                            let mut scratch = Stats::default();
+                            scratch.frozen = true;
+                            let f = match run_guarded(prop, &tapes, &mut scratch) {
+                                Err(f) => f,
+                                Ok(()) => last_fail.borrow_mut().take().unwrap_or_else(|| Failure::new("failure did not reproduce after shrinking")),
+                            };
+                            let payload = json!({"kind": "tapes", "tapes": tapes_json(&tapes), "decoded": prop.describe(&tapes)});
+                            let mut ff = first_failure.lock().unwrap();
+                            if ff.is_none() {
+                                *ff = Some((f, payload));
+                            }
+                            break;
+                        } else if let Err(TestError::Abort(r)) = res {
+                            let mut ff = first_failure.lock().unwrap();
+                            if ff.is_none() {
+                                *ff = Some((Failure::new(format!("proptest aborted: {}", r)).with_signature("infrastructure"), Value::Null));
+                            }
+                            break;
                         }
                     }
+                    drop(stref);
                     st.frozen = false;
                     merged.lock().unwrap().merge(st);
                 })
@@ -540,6 +558,7 @@ pub fn main_replay(prop: &dyn Property, path: &str) -> i32 {
             a: unhex(t["a"].as_str().unwrap_or("")),
             b: unhex(t["b"].as_str().unwrap_or("")),
             c: unhex(t["c"].as_str().unwrap_or("")),
+            small: t["small"].as_bool().unwrap_or(false),
         };
         let mut st = Stats::default();
         st.frozen = true;
@@ -548,7 +567,7 @@ pub fn main_replay(prop: &dyn Property, path: &str) -> i32 {
             std::thread::Builder::new()
                 .stack_size(prop.stack_mib() << 20)
                 .spawn_scoped(scope, || {
-                    crate::crashguard::begin_case(&tapes.a, &tapes.b, &tapes.c);
+                    crate::crashguard::begin_case(&tapes.a, &tapes.b, &tapes.c, tapes.small);
                     let r = run_guarded(prop, &tapes, &mut st);
                     crate::crashguard::end_case();
                     r
